@@ -90,4 +90,27 @@ var impHeap = impPkg{
 	},
 }
 
-var impPkgs = []*impPkg{&impDeque, &impHeap}
+// xslices: the loops over one slice; callbacks are pure functions of the model
+const xslicesFile = "xslices/xslices.go"
+
+var impSlices = impPkg{
+	out:       "ImpSlices.v",
+	imports:   "From Juniper Require Import Common.Base Translated.GoImp.",
+	section:   "Context {T U : Type} (zero : T).",
+	recs:      map[string]recSpec{},
+	pureCalls: map[string]string{"f": "f", "same": "same", "keep": "keep"},
+	fns: []impFn{
+		{file: xslicesFile, name: "All", coqName: "gi_xslices_All", binders: "(s : list T) (f : T -> bool)", retTy: "bool", fuel: "(S (length s))"},
+		{file: xslicesFile, name: "CountFunc", coqName: "gi_xslices_CountFunc", binders: "(s : list T) (f : T -> bool)", retTy: "Z", fuel: "(S (length s))"},
+		{file: xslicesFile, name: "Fill", coqName: "gi_xslices_Fill", binders: "(s : list T) (x : T)", fuel: "(S (length s))",
+			outVars: []string{"s"}, outTy: "list T"},
+		{file: xslicesFile, name: "LastIndexFunc", coqName: "gi_xslices_LastIndexFunc", binders: "(s : list T) (f : T -> bool)", retTy: "Z", fuel: "(S (length s))"},
+		{file: xslicesFile, name: "Partition", coqName: "gi_xslices_Partition", binders: "(s : list T) (f : T -> bool)", retTy: "Z", fuel: "(S (length s))",
+			outVars: []string{"s"}, outTy: "Z * list T"},
+		{file: xslicesFile, name: "Reduce", coqName: "gi_xslices_Reduce", binders: "(s : list T) (initial : U) (f : U -> T -> U)", retTy: "U", fuel: "(S (length s))"},
+		{file: xslicesFile, name: "Reverse", coqName: "gi_xslices_Reverse", binders: "(s : list T)", fuel: "(S (length s))",
+			outVars: []string{"s"}, outTy: "list T"},
+	},
+}
+
+var impPkgs = []*impPkg{&impDeque, &impHeap, &impSlices}
